@@ -975,7 +975,7 @@ def oracle_raw(c, r):
                 for v in m_:
                     if not c.get("plate") or v % PLATE_W == 0:
                         cnt_[v] = cnt_.get(v, 0) + 1
-            if sorted([v, n] for v, n in cnt_.items()) != o["vm_count"]:
+            if sorted([v, n] for v, n in cnt_.items()) != [x_ for x_ in o["vm_count"] if x_[1] != 0]:   # (a variable no factor holds any more is listed with 0)
                 fails.append((where + ": variable_message_count %s is not the number of factors holding each variable" % o["vm_count"], []))
         new = {v: fnat(unhex(mu), unhex(sg)) for v, mu, sg in s["new"]}
         if s["via"].startswith("inplace"):
